@@ -180,6 +180,44 @@ func scnRenewRecipes(ctx *check.JobCtx) {
 		w.Finish()
 		return
 	}
+	if mode == "renew-between-expiries" {
+		// two replicas stored at different heights; the renewal request arrives after the first replica's paid
+		// term has run out and before the second one's
+		_, oid := w.Store(world.StoreReq{Owner: o.Id, Gateway: g, DataId: did, CommitId: did, Duration: 3600, Replica: 2, Timeout: 1500, Size: size})
+		var h1 int64
+		if od, ok := w.Cur.Orders[oid]; ok && len(od.Shards) == 2 {
+			a, b := w.Cur.Shards[od.Shards[0]], w.Cur.Shards[od.Shards[1]]
+			if pr := w.ProviderByAddr(a.Sp); pr != nil {
+				w.Complete(pr.Acct, nil, oid, a.Size_)
+				h1 = w.C.Height + 1
+			}
+			w.EndBlock()
+			gap := int64(100 + r.Intn(900))
+			w.Advance(gap)
+			if pr := w.ProviderByAddr(b.Sp); pr != nil {
+				w.Complete(pr.Acct, nil, oid, b.Size_)
+			}
+			w.EndBlock()
+			w.AdvanceTo(h1 + 3600 + 1 + int64(r.Intn(int(gap)-2)))
+			e := w.Renew(o.Id, nil, g.Acct, "", 3600+uint64(r.Intn(1000)), 300, nil, did)
+			w.EndBlock()
+			w.Case("recipe:%s:tx-accepted=%v", mode, e.OK)
+		}
+		for round := 0; round < 12 && !w.Halted(); round++ {
+			next := l.nextScheduled()
+			if next == 0 || int64(next) > w.C.Height+40000 {
+				break
+			}
+			w.AdvanceTo(int64(next) + 1)
+		}
+		for _, sp := range l.SP {
+			w.Claim(sp.Acct)
+		}
+		w.EndBlock()
+		w.Sample("recipe %s: %s", mode, traceSummary(w))
+		w.Finish()
+		return
+	}
 	if mode == "debt-multi" {
 		// ONE renewal message for two models that both have a shard on the provider without funds: its balance
 		// covers the first collateral top-up but not the second
